@@ -24,7 +24,8 @@ def run_impl(case):
     al = rnd.choice([0, 0, 1, 2])
     modes = [rnd.choice(["level", "rise", "fall"]) for _ in range(n)]
     em = event.EventMap()
-    srcs = [event.Source(trigger=m) for m in modes]
+    us_ = lib.rng_for(case["seed"], case["idx"], 1451)
+    srcs = [simutil.mk_source(m, us_) for m in modes]
     rep_rng = lib.rng_for(case["seed"], case["idx"], 1444)
     for k_, s in enumerate(srcs):
         em.add(s)
@@ -41,6 +42,18 @@ def run_impl(case):
     if attach == "direct":
         top.submodules.dut = dut
         bus = dut.bus
+    elif attach == "decoder" and lib.rng_for(case["seed"], case["idx"], 1464).random() < .35:
+        # windows placed at explicit addresses in DESCENDING order of the add() calls: the monitor first, at the higher
+        # address, then something else below it
+        W = 1 << mm.addr_width
+        dec = csr.Decoder(addr_width=mm.addr_width + 2, data_width=dw)
+        other = csr.Interface(addr_width=mm.addr_width, data_width=dw)
+        other.memory_map = type(mm)(addr_width=mm.addr_width, data_width=dw)
+        base = dec.add(dut.bus, name="mon", addr=2 * W)[0]
+        dec.add(other, name="other", addr=0)
+        top.submodules.dec = dec
+        top.submodules.dut = dut
+        bus = dec.bus
     elif attach == "decoder":
         dec = csr.Decoder(addr_width=mm.addr_width + 1, data_width=dw)
         if rnd.random() < .5:      # something else first, so that the monitor's window is not at 0
